@@ -323,28 +323,45 @@ Section Loop.
       assert (Hend : forall c, steps c0 c -> c_conv c0 = true -> c = c0).
       { intros c Hs Hc. destruct Hs as [|c1 c2 Hcond _ _]; [reflexivity|]. apply cond_spec in Hcond. destruct Hcond; congruence. }
       destruct H as (c & Hs & [(Hc & Hcv & E)|[(Hc & Hcv & Hge & E)|(Hc & Hz & E)]]); rewrite E in Hr; inversion Hr; subst; clear Hr.
-      + repeat split; try congruence; try tauto; try discriminate.
+      + refine (conj _ (conj _ (conj _ (conj _ (conj _ (conj _ _)))))).
+        * split; congruence.
+        * tauto.
+        * split; [discriminate|tauto].
         * intros H1. destruct Hcase as [(A & _)|[(_ & A & B)|(A & _)]]; try (rewrite H1 in A; lra); try contradiction.
-          rewrite (Hend c Hs A). rewrite B. reflexivity.
-        * intros H1. destruct Hcase as [(A & _)|[(_ & A & B)|(A & _)]]; try (rewrite H1 in A; lra); try contradiction.
-          rewrite (Hend c Hs A). exact Hi0.
+          rewrite (Hend c Hs A). rewrite B. auto.
         * intros H0 H1. destruct Hcase as [(A & _)|[(A & _)|(_ & _ & A & B)]]; try (rewrite H0 in A; lra); try contradiction.
-          rewrite (Hend c Hs A). rewrite B. reflexivity.
-        * intros H0 H1. destruct Hcase as [(A & _)|[(A & _)|(_ & _ & A & B)]]; try (rewrite H0 in A; lra); try contradiction.
-          rewrite (Hend c Hs A). exact Hi0.
+          rewrite (Hend c Hs A). rewrite B. auto.
+        * discriminate.
         * intros v Hv. inversion Hv; subst. apply Hpres; assumption.
       + assert (Hnc : c_conv c0 = true -> False).
         { intros A. rewrite (Hend c Hs A) in Hcv. congruence. }
-        repeat split; try congruence; try tauto; try discriminate; try (intros; exact Hge).
-        all: intros; exfalso; destruct Hcase as [(A & _)|[(A & B & _)|(A & A' & B & _)]]; try (apply Hnc; assumption);
-          try (match goal with H : f _ = 0 |- _ => rewrite H in A; lra end).
+        refine (conj _ (conj _ (conj _ (conj _ (conj _ (conj _ _)))))).
+        * split; [tauto|discriminate].
+        * split; discriminate.
+        * split; [discriminate|tauto].
+        * intros H1. exfalso. destruct Hcase as [(A & _)|[(_ & A & B)|(A & _)]]; try (rewrite H1 in A; lra); try contradiction; auto.
+        * intros H0 H1. exfalso. destruct Hcase as [(A & _)|[(A & _)|(_ & _ & A & B)]]; try (rewrite H0 in A; lra); try contradiction; auto.
+        * intros _. exact Hge.
+        * discriminate.
       + assert (Hnc : c_conv c0 = true -> False).
         { intros A. rewrite (Hend c Hs A) in Hc. apply cond_spec in Hc. destruct Hc; congruence. }
-        repeat split; try congruence; try tauto; try discriminate.
-        all: intros; exfalso; destruct Hcase as [(A & _)|[(A & B & _)|(A & A' & B & _)]]; try (apply Hnc; assumption);
-          try (match goal with H : f _ = 0 |- _ => rewrite H in A; lra end).
+        refine (conj _ (conj _ (conj _ (conj _ (conj _ (conj _ _)))))).
+        * split; [tauto|discriminate].
+        * split; discriminate.
+        * split; [discriminate|tauto].
+        * intros H1. exfalso. destruct Hcase as [(A & _)|[(_ & A & B)|(A & _)]]; try (rewrite H1 in A; lra); try contradiction; auto.
+        * intros H0 H1. exfalso. destruct Hcase as [(A & _)|[(A & _)|(_ & _ & A & B)]]; try (rewrite H0 in A; lra); try contradiction; auto.
+        * discriminate.
+        * discriminate.
     - rewrite H in Hr. inversion Hr; subst; clear Hr. destruct Hi as (A & B & C).
-      repeat split; try congruence; try tauto; try discriminate; intros; exfalso; tauto.
+      refine (conj _ (conj _ (conj _ (conj _ (conj _ (conj _ _)))))).
+      + split; [tauto|discriminate].
+      + split; discriminate.
+      + tauto.
+      + tauto.
+      + tauto.
+      + discriminate.
+      + discriminate.
   Qed.
 
   Theorem result_in_bracket x0 b0 b1 v cv it F dx w : f b0 * f b1 < 0 ->
